@@ -1,0 +1,18 @@
+//go:build verif
+
+// Round 5, area J: lg.Logf - the level filter in front of every log line (no property depends on log output; C15/C09 no-panic: a nil logger is
+// only tolerated for a filtered message). Checked by nsqvc. Comment-only file. Logger.Output is an assumed contract scoped to this package
+// (lib/trusted/r5J.spec): no modelled state, the call is recorded in free ghosts.
+
+package lg
+
+// [filtered-below-the-configured-level] a message below the configured level produces no output at all; [one-line-otherwise] any other message is
+// handed to the logger exactly once, with call depth 3 (so that the line shows the caller of the logf wrapper).
+//@ func Logf(logger Logger, cfgLevel LogLevel, msgLevel LogLevel, f string, args ...interface{})
+//@   props C15 C09 C06 C05
+//@   nochan
+//@   requires[logger-unless-filtered] logger != nil || cfgLevel > msgLevel
+//@   ensures[filtered-below-the-configured-level] cfgLevel > msgLevel ==> r5JLogOutputs == old(r5JLogOutputs)
+//@   ensures[one-line-otherwise] cfgLevel <= msgLevel ==> r5JLogOutputs == old(r5JLogOutputs) + 1 && r5JLogOutputOn == logger && r5JLogOutputDepth == 3
+//@   keeps gMarshalArg, gMarshalErr, gMarshalOut, gMarshals, gQuiesced, pumpKicked, pumpKicks, r4ABytesBuf, r4ABytesData, r4AGotAt, r4AGotBuf, r4APoolGets, r4APoolPuts, r4APutBuf, r4BExitTestChan, r4BExitTestHeld, r4BExitTestSaw, r4BExitTests, r4CLoaded, r5JBufResetBuf, r5JBufResets, r5JPoolGetOn, r5JPoolGets, r5JPoolPutOn, r5JPoolPutSawResets, r5JPoolPutVal, r5JPoolPuts, r5JWgAddOn, r5JWgAddSum, r5JWgAdds, r5JWgDoneOn, r5JWgDones, r5JWgLastOpDone, r5JWrapAddsAtSpawn, r5JWrapSpawns, r5IResolves, r5IResolvedOpts, r5IResolvedFlags
+//@   modifies
